@@ -197,6 +197,10 @@ let parse_value (t : string) : value =
 let parse_set_tokens (toks : string list) : cset =
   let q = ref toks in
   let next () = match !q with t :: r -> q := r; t | [] -> failwith "decl: unexpected end" in
+  let p_doc () : n list list =
+    let d = next () in
+    if String.length d < 2 || d.[0] <> 'D' then failwith "doc" else
+    List.init (int_of_string (String.sub d 1 (String.length d - 1))) (fun _ -> unhex (next ())) in
   let rec p_enum () : enumdecl =
     let title = unhex (next ()) in
     let n = int_of_string (next ()) in
@@ -204,8 +208,7 @@ let parse_set_tokens (toks : string list) : cset =
     { e_title = title; e_cmds = cmds }
   and p_cmd () : cmddecl =
     let name = unhex (next ()) in
-    let sh = opt_hex (next ()) in
-    let lg = opt_hex (next ()) in
+    let (sh, lg) = doc_help (p_doc ()) in           (* summary and description as command/doc.rs computes them: Model/Doc.v *)
     let na = int_of_string (next ()) in
     let args = List.init na (fun _ -> p_arg ()) in
     let sub = match next () with
@@ -229,7 +232,7 @@ let parse_set_tokens (toks : string list) : cset =
     let dflt = match next () with
       | "~" -> DNone | "s" -> DStr (unhex (next ())) | "v" -> DVal (parse_value (next ())) | _ -> failwith "default" in
     let valname = unhex (next ()) in
-    let help = opt_hex (next ()) in
+    let help = fst (doc_help (p_doc ())) in
     { a_field = field; a_kind = kind; a_ty = ty; a_optional = optional; a_default = dflt; a_valname = valname; a_help = help } in
   match next () with
   | "E" -> SEnum (p_enum ())
